@@ -24,7 +24,7 @@ type Opts struct {
 var AllFeatures = []string{
 	"async", "err", "multi", "bind", "struct", "value", "sets", "lit", "ext", "ctxparam",
 	"composite", "basic", "args", "unneeded", "multi-inj", "multi-file", "dupparam",
-	"generic", "variadic", "variadic-functype", "want-unsupplied", "kalias", "extalias", "value-and-pointer", "rewrap", "struct-both-forms", "alias-basic", "ctx-provider", "implements-error", "adv-pkg-shadowed-by-later-decl", "value-literal", "multi-var-sets", "ext-method-value", "err-alias", "set-included-twice", "prov-func-var-named-type", "nested-struct-expansion", "local-provider-ext-result", "arg-ext-type", "arg-hidden-ext", "set-ref-paren", "set-decl-paren", "set-alias-var", "elem-paren", "elem-hoisted-var", "inject-spelling", "prov-func-var",
+	"generic", "variadic", "variadic-functype", "want-unsupplied", "kalias", "extalias", "value-and-pointer", "rewrap", "struct-both-forms", "alias-basic", "ctx-provider", "implements-error", "adv-pkg-shadowed-by-later-decl", "value-literal", "multi-var-sets", "ext-method-value", "err-alias", "ctx-alias", "set-included-twice", "prov-func-var-named-type", "nested-struct-expansion", "local-provider-ext-result", "arg-ext-type", "arg-hidden-ext", "set-ref-paren", "set-decl-paren", "set-alias-var", "elem-paren", "elem-hoisted-var", "inject-spelling", "prov-func-var",
 	"async-struct", "ptrrecv", "aiface", "embedded",
 }
 
@@ -65,6 +65,7 @@ type gen struct {
 	pending  map[TypeID]bool
 	roots    int // the first `roots` units take no provided inputs (fork), the last unit joins
 	errAliasDeclared bool
+	ctxAliasDeclared bool
 	preferWant TypeID // an interface bound to a local provider's external result: a good requested type
 	hiddenArg map[TypeID]bool // argument types of the hidden external package (only ext providers may take them)
 	wide     bool // fan shape: every inner unit takes at most one of the first supplied types, the last unit joins all
@@ -806,6 +807,11 @@ func (g *gen) genUnit(i int) {
 	}
 	if takesCtx {
 		g.ctxUsed = true
+		if !extForm && (g.used["Ctx"] == g.ctxAliasDeclared) && g.want("ctx-alias", "ctxalias", 25) {
+			// the context parameter is spelled through an alias of context.Context
+			p.CtxAlias = true
+			g.used["Ctx"], g.ctxAliasDeclared = true, true
+		}
 	}
 	if !extForm && !g.ctxSupplied && !g.ctxUsed && i > 0 && !g.last && g.want("ctx-provider", "ctxprovider", 4) {
 		g.ctxSupplied = true
